@@ -119,6 +119,12 @@ pub struct Mem {
     pub sent_gen: BTreeMap<(u64, bool), u32>,
     /// receiver side: next expected generation per (sender, epoch, application?)
     pub ratchet_pos: BTreeMap<(usize, u64, bool), u32>,
+    /// retention model (C19): prior epochs on disk as of the last write / entered since that write
+    pub ret_disk: BTreeSet<u64>,
+    pub ret_pending: BTreeSet<u64>,
+    /// prior epochs recorded without secrets (the epoch an external joiner joined from)
+    pub ret_nosecret: BTreeSet<u64>,
+    pub rejoined_same_storage: bool,
 }
 
 impl Default for Mem {
@@ -139,6 +145,10 @@ impl Default for Mem {
             unwritten_sends: 0,
             sent_gen: Default::default(),
             ratchet_pos: Default::default(),
+            ret_disk: Default::default(),
+            ret_pending: Default::default(),
+            ret_nosecret: Default::default(),
+            rejoined_same_storage: false,
         }
     }
 }
@@ -744,6 +754,9 @@ impl World {
 
     /// generate a key package for party q; returns (message bytes, reference)
     pub fn gen_key_package(&mut self, q: usize) -> VResult<Option<Vec<u8>>> {
+        // the key package draws from q's crypto PRNG outside any mirrored call: a twin of q (in another group)
+        // can no longer follow byte for byte
+        self.ext.twins.retain(|(p, _), _| *p != q);
         let client = self.parties[q].client.clone();
         let now = self.now();
         let prop = self.cfg.property.clone();
@@ -788,6 +801,9 @@ impl World {
             }
             let st = self.mem(*q, g).status.clone();
             if st == Status::Member || st == Status::Invited || matches!(st, Status::Stuck(_)) {
+                continue;
+            }
+            if st == Status::Removed && self.multi() && !self.cfg.same_storage_rejoin {
                 continue;
             }
             if self.groups[g].members.get(&epoch).map(|m| m.contains_key(q)).unwrap_or(false) {
@@ -976,6 +992,10 @@ impl World {
     }
 
     /// a party that was removed (or never a member) is about to be added again
+    pub fn multi(&self) -> bool {
+        self.groups.len() > 1 || self.cfg.knob("groups").is_some()
+    }
+
     pub fn prepare_rejoin(&mut self, q: usize, g: usize) -> VResult<()> {
         let st = self.mem(q, g).status.clone();
         if st == Status::Removed && !self.cfg.same_storage_rejoin {
@@ -991,6 +1011,7 @@ impl World {
             self.stats.probe("rejoin-new-device");
         } else if st == Status::Removed {
             self.stats.probe("rejoin-same-storage");
+            self.mem(q, g).rejoined_same_storage = true;
         }
         let m = self.mem(q, g);
         m.cached.clear();
@@ -1018,6 +1039,9 @@ impl World {
                 }
                 let st = self.mem(*q, g).status.clone();
                 if st == Status::Member || st == Status::Invited || matches!(st, Status::Stuck(_)) {
+                    return Ok(false);
+                }
+                if st == Status::Removed && self.multi() && !self.cfg.same_storage_rejoin {
                     return Ok(false);
                 }
                 if self.groups[g].members.get(&epoch).map(|m| m.contains_key(q)).unwrap_or(false) {
@@ -1137,8 +1161,14 @@ impl World {
                     welcomes: vec![],
                     oob_tree: None,
                     external: false,
-                    ext_psks: vec![],
-                    res_psks: vec![],
+                    ext_psks: match spec {
+                        PropSpec::ExtPsk { id } => vec![*id],
+                        _ => vec![],
+                    },
+                    res_psks: match spec {
+                        PropSpec::ResPsk { .. } => vec![extra.res_epoch],
+                        _ => vec![],
+                    },
                     private,
                     spec: None,
                     pspec: Some(spec.clone()),
@@ -1228,6 +1258,15 @@ impl World {
                 m.inbox.clear();
                 m.pending = None;
                 m.join_epoch = epoch + 1;
+                m.ret_pending.clear();
+                m.ret_pending.insert(epoch);
+                m.ret_nosecret.clear();
+                m.ret_nosecret.insert(epoch);
+                m.sent_gen.clear();
+                m.ratchet_pos.clear();
+                if !m.rejoined_same_storage {
+                    m.ret_disk.clear();
+                }
                 self.parties[s].crashed = false;
                 self.reached_epoch(s, g, "external-commit")?;
                 crate::oracles::after_join(self, s, g, "external")?;
@@ -1352,12 +1391,8 @@ impl World {
                 self.ev(format!(
                     "deliver-commit P{p} g{g} e{epoch} id={cid} ok removed={removed} reinit={reinit} own={own}"
                 ));
-                if let Some((sk, sid)) = self.ext.new_identities.get(&cid).cloned() {
-                    if own {
-                        self.parties[p].signer = sk;
-                        self.parties[p].signing_identity = sid;
-                    }
-                }
+                // (an identity change inside a group does not change the identity the party's client uses for
+                // key packages and joins: that one stays the key pair the client was built with)
                 crate::oracles::after_commit_processed(self, p, g, cid, pre, &desc)?;
                 if reinit {
                     self.groups[g].reinit_at = Some(epoch);
@@ -1372,6 +1407,7 @@ impl World {
                     self.stats.probe("member-removed");
                     return Ok(true);
                 }
+                self.mem(p, g).ret_pending.insert(epoch);
                 let new_epoch = self.epoch_of(p, g).unwrap();
                 if new_epoch != epoch + 1 {
                     return Err(Violation::new(
@@ -1480,6 +1516,13 @@ impl World {
                 m.accepted.clear();
                 m.pending = None;
                 m.durable = Default::default();
+                m.ret_pending.clear();
+                m.ret_nosecret.clear();
+                m.sent_gen.clear();
+                m.ratchet_pos.clear();
+                if !m.rejoined_same_storage {
+                    m.ret_disk.clear();
+                }
                 self.ev(format!("join P{p} g{g} via {cid} ok e{epoch}"));
                 self.stats.result("join:ok");
                 self.reached_epoch(p, g, "welcome")?;
@@ -1767,6 +1810,22 @@ impl World {
             return Ok(false);
         }
         let prop = self.cfg.property.clone();
+        if self.step_no > 1000 {
+            self.ext.final_written.insert((p, g));
+        }
+        if let Some(grp) = self.parties[p].mems[g].group.as_ref() {
+            if let Ok((ins, upd)) = grp.verif_repo_pending() {
+                if !upd.is_empty() {
+                    self.stats.probe("write-with-epoch-updates");
+                    if self.groups.len() > 1 {
+                        self.stats.probe("write-with-epoch-updates-in-two-group-world");
+                    }
+                }
+                if ins.len() > 1 {
+                    self.stats.probe("write-with-several-epoch-inserts");
+                }
+            }
+        }
         let pre = crate::oracles::before_op(self, p, g, "write")?;
         let res = crate::oracles::lib_call(self, p, Some(g), "write_to_storage", |w| {
             let mut group = w.parties[p].mems[g].group.take().unwrap();
@@ -1788,6 +1847,16 @@ impl World {
                     ratchet_pos: m.ratchet_pos.clone(),
                 };
                 m.unwritten_sends = 0;
+                if !m.ret_pending.is_empty() || true {
+                    let pend = std::mem::take(&mut m.ret_pending);
+                    m.ret_disk.extend(pend);
+                    let r = self.cfg.retention as usize;
+                    let m = self.mem(p, g);
+                    while m.ret_disk.len() > r {
+                        let first = *m.ret_disk.iter().next().unwrap();
+                        m.ret_disk.remove(&first);
+                    }
+                }
                 self.ev(format!("write P{p} g{g} ok"));
                 crate::oracles::after_write(self, p, g, pre)?;
                 Ok(true)
@@ -1887,6 +1956,7 @@ impl World {
                 m.pending = m.durable.pending;
                 m.accepted = m.durable.accepted.clone();
                 m.sent_gen = m.durable.sent_gen.clone();
+                m.ret_pending.clear();
                 m.ratchet_pos = m.durable.ratchet_pos.clone();
                 self.stats.fault("P-RELOAD");
                 self.ev(format!("reload P{p} g{g} ok e{epoch}"));
@@ -1955,6 +2025,12 @@ impl World {
         let latest = self.groups[g].log.len() as u64;
         if self.mem(p, g).ext_pending.is_some() || self.mem(p, g).welcome.is_some() {
             return Ok(false);
+        }
+        if self.multi() && !self.cfg.same_storage_rejoin {
+            let st = self.mem(p, g).status.clone();
+            if st != Status::Never {
+                return Ok(false);
+            }
         }
         let in_roster = self.groups[g]
             .members
